@@ -50,6 +50,9 @@ type LoopSpec struct {
 }
 
 type CallAssert struct {
+	AtReturn bool
+	File     string
+	Off      int
 	Before  bool
 	Ordinal int
 	Callee  string
@@ -264,6 +267,19 @@ func parseContractFile(path string) (*ContractFile, error) {
 				cl.CurrentParams = true
 				cur.Alloc = &cl
 			case "assert":
+				// assert at return k: label: expr
+				if strings.HasPrefix(rest, "at return ") {
+					f := strings.Fields(rest)
+					k, err := strconv.Atoi(strings.TrimSuffix(f[2], ":"))
+					if err != nil {
+						return nil, fmt.Errorf("%s:%d: bad return ordinal", path, s.no)
+					}
+					idx := strings.Index(rest, f[2]) + len(f[2])
+					cl := mkClause(rest[idx:], s.no, fmt.Sprintf("a%d", len(cur.Asserts)+1))
+					cl.CurrentParams = true
+					cur.Asserts = append(cur.Asserts, CallAssert{AtReturn: true, Ordinal: k, Clause: cl})
+					break
+				}
 				// assert before|after call k callee: label: expr
 				f := strings.Fields(rest)
 				if len(f) < 5 || f[1] != "call" {
